@@ -48,6 +48,9 @@ def gen(rng, tier):
             add("ss_set", ["x", b(n_old), b(n_new)], "old=%d new=%d" % (n_old, n_new)); add("ss_movein", ["x", b(n_old), b(n_new)], "old=%d new=%d" % (n_old, n_new))
         add("ss_rotate_revealed", ["x", b(n_old), "-"], "len=%d" % n_old); add("ss_set_revealed", ["x", b(n_old), b(21)], "len=%d" % n_old)
         add("ss_rotate", ["x", b(n_old), "-"], "len=%d" % n_old); add("ss_rotate_twice", ["x", b(n_old), "-"], "len=%d" % n_old); add("ss_reveal", ["x", b(n_old), "-"], "len=%d" % n_old)
+        add("ss_rotate_move_rotate", ["x", b(n_old), "-"], "len=%d" % n_old)       # interrupted rotation, the object is moved, rotated again
+    # the first secret_string operation of a fresh process (the process-wide key is created inside it), one child process per failing allocation
+    add("ss_firstuse", ["x", b(40)], "fresh-process")
     return cases
 
 def key(case, impl, model):
